@@ -704,6 +704,51 @@ def perm_tracking(mk, sim, cfg, N, g):
         stubs.OPTIONS["svd_positive"] = True
 
 
+@obligation(PROP, params=[{"prog": k, "method": m, "_tiers": ("quick", "thorough") if (m == "dm" and k in _NEW_PROGS + ("swap-iden", "toffoli")) else ("thorough",)}
+                          for k in PROGRAMS if k != "raw" for m in ("dm", "direct")], numeric=True, num_trials=2)
+def mps_lazy_numeric(mk, prog, method):
+    """LABELLED NUMERIC-ONLY SUPPLEMENT.  CircuitMPSLazy (gates applied lazily as sub-MPOs, compressed by an
+    eigen-decomposition with numerical rank detection: value-dependent, not modelled symbolically).  It inherits
+    to_dense / amplitude / partial_trace / compute_marginal from CircuitMPS: at random parameter values every
+    query equals the reference value (no truncation requested: cutoff=0)."""
+    if mk.sym:
+        mk.note("CircuitMPSLazy: numeric cross-run only (numerical rank detection inside the compression)")
+        mk.same("numeric-only obligation", True, True)
+        return
+    N = PROG_N.get(prog, 3)
+    p = build_program(mk, prog, kind="real")
+    circ = qtn.CircuitMPSLazy(N, cutoff=0.0, method=method)
+    applied = []
+    for item in p:
+        try:
+            apply_program(mk, circ, [item])
+            applied.append(item)
+        except (TypeError, ValueError, NotImplementedError, KeyError) as e:
+            mk.note(f"CircuitMPSLazy rejected {item[0]} on {item[2]}: {type(e).__name__}")
+            break
+    v = ref_state(mk, applied, N, basis0(mk, N)) if applied else basis0(mk, N)
+    v = np.asarray(v, dtype=complex)
+    tol = 1e-6
+    mk.eq("CircuitMPSLazy: to_dense() == reference state", np.asarray(circ.to_dense()).reshape(-1), v, tol=tol)
+    qa = mps_query_args(N)
+    for b in (("000", "110", "011") if N == 3 else ("0000", "1101", "0110")):
+        mk.eq(f"CircuitMPSLazy: amplitude('{b}')", circ.amplitude(b), v[int(b, 2)], tol=tol)
+    for keep in qa["keep"]:
+        kt = (keep,) if isinstance(keep, int) else keep
+        mk.eq(f"CircuitMPSLazy: partial_trace({keep}) == reduced density matrix of the reference state", np.asarray(circ.partial_trace(keep)),
+              ref_rdm(v, N, kt), tol=tol)
+    for where in qa["where"]:
+        wt = (where,) if isinstance(where, int) else where
+        O = mk.array("O" + "".join(map(str, wt)), (2 ** len(wt),) * 2, "cplx")
+        mk.eq(f"CircuitMPSLazy: local_expectation(O, {where}) == <psi|O|psi>", circ.local_expectation(O, where), ref_expect(v, N, O, wt), tol=tol)
+    for where, fix, _ in qa["marg"]:
+        mk.eq(f"CircuitMPSLazy: compute_marginal({where}, fix={fix})", np.asarray(circ.compute_marginal(where, fix=fix)), ref_marginal(v, N, where, fix), tol=tol)
+    mk.eq("CircuitMPSLazy: to_dense() after the queries == reference state", np.asarray(circ.to_dense()).reshape(-1), v, tol=tol)
+    probs = np.abs(v) ** 2
+    for x in circ.sample(16, seed=mk.rng.randint(0, 10 ** 6)):
+        mk.same(f"CircuitMPSLazy: sampled string {x} has non-zero probability", bool(probs[int(x, 2)] > 1e-12), True)
+
+
 # ---------------------------------------------------------------------- (c) histories
 
 @obligation(PROP, params=[{"cfg": c} for c in ("lazy", "default")], timeout_s=400)
@@ -762,6 +807,153 @@ def history_param_update(mk, cfg):
         want = want + x * y
     mk.eq("after set_params: local_expectation (cached query) follows the new parameters", circ.local_expectation(O, (2, 0), **NOSIMP), want)
     mk.eq("after set_params: amplitude follows the new parameters", circ.amplitude("011", **NOSIMP), v[int("011", 2)])
+
+
+# circuit with *named* parameters: gate index -> (label, qubits, parameter source)
+#   source "theta" / "theta + 2*phi": string expression over the registered names; callable: function of the
+#   name -> value mapping; ("#", key): directly parametrised gate updated through its integer gate index
+_NP_GATES = [
+    ("H", (0,), None),
+    ("RY", (1,), "theta"),
+    ("CX", (0, 1), None),
+    ("RX", (2,), ("#", "b")),
+    ("RZ", (0,), "theta + 2*phi"),
+    ("CX", (1, 2), None),
+    ("RY", (0,), "callable:-phi"),
+]
+_NP_QASM3 = """OPENQASM 3.0;
+include "stdgates.inc";
+input float theta;
+input float phi;
+qubit[3] q;
+h q[0];
+ry(theta) q[1];
+cx q[0], q[1];
+"""
+_NP_QASM3_TAIL = """rz(theta + 2*phi) q[0];
+cx q[1], q[2];
+ry(-phi) q[0];
+"""
+# update histories: each step is the set of keys given NEW values in one set_params call ("b" is the integer gate
+# key); "tn" = update_params_from(a network carrying new values for every parametrised gate)
+_NP_HIST = {
+    "theta": [("theta",)], "phi": [("phi",)], "names": [("theta", "phi")], "index": [("b",)],
+    "theta+index": [("theta", "b")], "phi+index": [("phi", "b")], "all": [("theta", "phi", "b")],
+    "names>index": [("theta", "phi"), ("b",)], "index>names": [("b",), ("phi", "theta")], "names>names": [("theta",), ("phi",)],
+    "tn": ["tn"], "names>tn>names": [("phi",), "tn", ("theta",)],
+}
+_NPP = []
+for _b in ("register", "qasm3"):
+    for _c in ("lazy", "default"):
+        for _h in _NP_HIST:
+            if _b == "qasm3" and "tn" in _h:
+                continue
+            quick = (_b == "register" and (_c == "lazy" or _h in ("names", "theta+index", "names>index"))) or \
+                    (_b == "qasm3" and _c == "default" and _h in ("phi", "names", "all", "index>names"))
+            _NPP.append({"build": _b, "cfg": _c, "hist": _h, "_tiers": ("quick", "thorough") if quick else ("thorough",)})
+
+
+def _np_values_to_program(mk, val):
+    """reference program of the named-parameter circuit for the current values (expressions evaluated here,
+    independently of the library's expression evaluator)"""
+    th, ph, b = val["theta"], val["phi"], val["b"]
+    pv = {1: th, 3: b, 4: th + ph * 2, 6: ph * -1}
+    prog = []
+    for i, (lab, qs, src) in enumerate(_NP_GATES):
+        if src is None:
+            prog.append((lab, [], qs, None, tb_const(mk, lab)))
+        else:
+            prog.append((lab, [pv[i]], qs, None, tb_param(mk, lab, [pv[i]])))
+    return prog
+
+
+@obligation(PROP, params=_NPP, timeout_s=500, wall_s=400)
+def history_named_params(mk, build, cfg, hist):
+    """circuits with registered *named* parameters (register_named_params / OpenQASM 3 ``input``) next to a directly
+    parametrised gate: query everything (warm every cache) -> set_params by name only / by gate index only /
+    mixed / update_params_from, possibly several times -> every query kind follows the NEW values, the gate
+    record and get_params() report them, and the answers equal those of the reference state"""
+    mk.encodes(ccore.CircuitBase.register_named_params, ccore.CircuitBase.set_params, ccore.CircuitBase.get_params,
+               ccore.CircuitBase._apply_named_param_updates, ccore.CircuitBase.update_params_from, ccore.CircuitBase.clear_storage,
+               ccore.CircuitBase.from_openqasm3_str, cexact.Circuit.get_psi_simplified, cexact.Circuit.get_rdm_lightcone_simplified,
+               cexact.Circuit.compute_marginal, cexact.Circuit.sample)
+    N = 3
+    nan = float("nan")
+    val = {k: mk.scalar(f"{k}0", "real") for k in ("theta", "phi", "b")}      # the OLD values are symbolic as well
+    arr1 = lambda x: as_param_array(mk, [x])
+    if build == "register":
+        circ = qtn.Circuit(N, **_EXACT_CFG[cfg])
+        exprs = {}
+        for i, (lab, qs, src) in enumerate(_NP_GATES):
+            if src is None:
+                circ.apply_gate(lab, *qs)
+            elif isinstance(src, tuple):
+                circ.apply_gate(lab, val[src[1]], *qs, parametrize=True)
+            else:
+                circ.apply_gate(lab, nan, *qs, parametrize=True)
+                exprs[i] = ((lambda env: -env["phi"]) if src.startswith("callable") else src,)
+        circ.register_named_params({"theta": val["theta"], "phi": val["phi"]}, exprs)
+    else:
+        # OpenQASM 3 ``input`` declarations register the names (values nan until bound); the directly
+        # parametrised gate (integer key 3) is applied through the Python API in between
+        circ = qtn.Circuit.from_openqasm3_str(_NP_QASM3, **_EXACT_CFG[cfg])
+        mk.same("qasm3: named parameters registered by the input declarations", tuple(circ.named_param_names), ("theta", "phi"))
+        circ.apply_gate("RX", val["b"], 2, parametrize=True)
+        tail = qtn.Circuit.from_openqasm3_str(_NP_QASM3.split("h q[0]")[0] + _NP_QASM3_TAIL)
+        base = circ.num_gates
+        for g in tail.gates:
+            circ.apply_gate(g.label, *g.params, *g.qubits, parametrize=g.parametrize)
+        ex = dict(circ.param_expressions)
+        ex.update({base + i: e for i, e in tail.param_expressions.items()})
+        circ.register_named_params(dict(circ.named_params), ex)
+        circ.set_params({"theta": val["theta"], "phi": val["phi"]})       # first binding
+    mk.same("gate count", circ.num_gates, len(_NP_GATES))
+    mk.same("get_params keys: names + unmanaged gate indices", sorted(map(str, circ.get_params())), ["3", "phi", "theta"])
+
+    def check_all(stage, k):
+        prog = _np_values_to_program(mk, val)
+        v = ref_state(mk, prog, N, basis0(mk, N))
+        query_goals(mk, circ, v, N, stage, otag=f"s{k}")
+        gp = circ.get_params()
+        mk.eq(f"{stage}: get_params() reports the current named values", [P.lift(gp["theta"].item() if hasattr(gp["theta"], "item") else gp["theta"]) if mk.sym else complex(gp["theta"]),
+                                                                          P.lift(gp["phi"].item() if hasattr(gp["phi"], "item") else gp["phi"]) if mk.sym else complex(gp["phi"])],
+              [val["theta"], val["phi"]])
+        mk.eq(f"{stage}: get_params()[3] reports the current direct value", np.asarray(gp[3]).reshape(-1), [val["b"]])
+        for i, want in ((1, prog[1][1][0]), (3, prog[3][1][0]), (4, prog[4][1][0]), (6, prog[6][1][0])):
+            mk.eq(f"{stage}: gate record {i} carries the current parameter", np.asarray(circ.gates[i].params).reshape(-1), [want])
+        if not mk.sym:
+            # numeric supplement (sampling is value-dependent control flow): same seed, same samples as a circuit
+            # built from scratch with the current values; cached conditionals of earlier values must not survive
+            fresh = qtn.Circuit(N, **_EXACT_CFG[cfg])
+            for lab, pv, qs, _, _ in prog:
+                fresh.apply_gate(lab, *pv, *qs)
+            seed = 1234 + k
+            mk.same(f"{stage}: sample(24, seed) == samples of a fresh circuit with the current values",
+                    list(circ.sample(24, seed=seed)), list(fresh.sample(24, seed=seed)))
+
+    check_all("before any update (named values as registered)", 0)
+    for k, step in enumerate(_NP_HIST[hist], 1):
+        if step == "tn":
+            new = {key: mk.scalar(f"{key}{k}", "real") for key in ("theta", "phi", "b")}
+            val.update(new)
+            want = {1: val["theta"], 3: val["b"], 4: val["theta"] + val["phi"] * 2, 6: val["phi"] * -1}
+            tn = circ.psi
+            for i, x in want.items():
+                tn[circ.gate_tag(i)].params = arr1(x)
+            circ.update_params_from(tn)
+            # update_params_from writes the gate tensors only: bring the registered names in line by name
+            stage = f"after step {k}: update_params_from(tn)"
+            prog = _np_values_to_program(mk, val)
+            v = ref_state(mk, prog, N, basis0(mk, N))
+            query_goals(mk, circ, v, N, stage, otag=f"s{k}")
+            circ.set_params({"theta": val["theta"], "phi": val["phi"]})
+            continue
+        upd = {}
+        for key in step:
+            val[key] = mk.scalar(f"{key}{k}", "real")
+            upd[3 if key == "b" else key] = arr1(val[key]) if key == "b" else val[key]
+        circ.set_params(upd)
+        check_all(f"after step {k}: set_params({sorted(map(str, upd))})", k)
 
 
 @obligation(PROP, numeric=True)
